@@ -26,7 +26,7 @@ ASSUMPTIONS = [
 SHARDS = {'quick': 8, 'thorough': 16}
 BUDGET_S = {'quick': 45, 'thorough': 480}
 N_GRAMMARS = {'quick': 4000, 'thorough': 120000}
-MIN_OBS = {'obligation': {'quick': 20000, 'thorough': 500000}}
+MIN_OBS = {'obligation': {'quick': 5000, 'thorough': 100000}}
 
 
 def engine():
